@@ -176,6 +176,7 @@ def pipeline(tier):
     res["design"] = {"ok": "No error has been found" in out, "distinct": dist, "generated": gen, "universes": len(design), "errors": vlib.tlc_error(out)[:3]}
     binary = vlib.build_test("internal/mvs", wd)
     lines = vlib.run_harness(binary, "TestVerifMVS", cases, wd, extra_env={"VERIF_SEED": str(sd)}, timeout=1500)
+    lines, crashes = vlib.split_crashes(lines)
     res["calls"] = {}
     for l in lines:
         for e in l["events"]:
@@ -190,6 +191,10 @@ def pipeline(tier):
         for x in v["viol"]:
             e = l["events"][x["at"] - 1]
             outv.append({"prop": x["prop"], "what": x["what"], "x": x.get("x"), "id": v["id"], "universe": l["cfg"], "event": e})
+    for t in crashes:
+        for prop in ("C10", "C11"):
+            outv.append({"prop": prop, "what": "the process was killed by the Go runtime inside the resolver: " + t["crash"], "x": "", "id": t["id"],
+                         "universe": {}, "event": {}})
     res["violations"] = outv
     res["op_errors"] = sum(1 for l in lines for e in l["events"] if e["ev"] == "Op" and e["err"])
     res["samples"] = [{"universe": lines[0]["cfg"], "events": lines[0]["events"][:2]}, {"universe": lines[-1]["cfg"], "events": lines[-1]["events"][3:5]}]
